@@ -100,7 +100,7 @@ func (ps *pathState) strEqTerm(x, y value) *Term {
 			// float text pseudo-bytes: equal texts iff same format and same value
 			// (a float text against an ordinary byte counts as different; such a
 			// candidate is replayed natively before it is reported)
-			if isfa && isfb && fa.f == fb.f && fa.prec == fb.prec && fa.x.sort == fb.x.sort {
+			if isfa && isfb && fa.f == fb.f && fa.prec == fb.prec && fa.bits == fb.bits && fa.x.sort == fb.x.sort {
 				cs = append(cs, ps.ts.Eq(fa.x, fb.x))
 				continue
 			}
@@ -311,7 +311,7 @@ func (ps *pathState) ffBinop(op token.Token, x, y value) value {
 	fx, isfx := x.(ffElem)
 	fy, isfy := y.(ffElem)
 	if isfx && isfy {
-		same := fx.x == fy.x && fx.f == fy.f && fx.prec == fy.prec
+		same := fx.x == fy.x && fx.f == fy.f && fx.prec == fy.prec && fx.bits == fy.bits
 		switch op {
 		case token.EQL:
 			if same {
